@@ -69,8 +69,10 @@ class Result:
         return hashlib.blake2b(blob, digest_size=8).digest()
 
 
-class HarnessTimeout(Exception):
-    pass
+class HarnessTimeout(KeyboardInterrupt):
+    """Raised by SIGALRM.  Derives from KeyboardInterrupt so that neither plumpy's broad ``except Exception`` clauses nor
+    asyncio's task machinery swallow it (both re-raise KeyboardInterrupt)."""
+
 
 
 def _alarm(signum, frame):
@@ -127,7 +129,7 @@ def _work(args):
             case = make_case(mod, tier, base, index, n_sys, systematic)
             result = mod.run(case)
             signal.alarm(0)
-        except Exception as exc:  # noqa: BLE001 - harness error, never a verdict
+        except (Exception, HarnessTimeout) as exc:  # noqa: BLE001 - harness error, never a verdict
             signal.alarm(0)
             out['errors'].append({'index': index, 'error': f'{type(exc).__name__}: {exc}',
                                   'trace': traceback.format_exc()[-1500:], 'case': case})
@@ -180,6 +182,18 @@ def run_case_in_process(mod, case):
     return result
 
 
+def guarded_run(mod, case, wall_s=60):
+    """mod.run under an alarm: a candidate that hangs (a synchronous endless loop in the code under test is not bounded by
+    the loop's handle counter) must not hang the reporting process."""
+    previous = signal.signal(signal.SIGALRM, _alarm)
+    signal.alarm(wall_s)
+    try:
+        return mod.run(case)
+    finally:
+        signal.alarm(0)
+        signal.signal(signal.SIGALRM, previous)
+
+
 def minimise(mod, case, target, budget_s=120):
     """Greedy ddmin-style shrinking while the same (rule, signature) persists."""
     if not hasattr(mod, 'shrink'):
@@ -188,8 +202,8 @@ def minimise(mod, case, target, budget_s=120):
 
     def fails(candidate):
         try:
-            result = mod.run(candidate)
-        except Exception:  # noqa: BLE001
+            result = guarded_run(mod, candidate, 30)
+        except (Exception, HarnessTimeout):  # noqa: BLE001
             return False
         return any(v.rule == target['rule'] and v.signature == target['signature'] for v in result.violations)
 
@@ -381,10 +395,10 @@ def run_batch(prop, tier, base, workers=None, n_cases=None, wall_s=None):
         case = held['case']
         try:
             small = minimise(mod, case, violation, budget_s=90)
-            result = mod.run(small)
+            result = guarded_run(mod, small)
             same = [v for v in result.violations if v.rule == violation['rule'] and v.signature == violation['signature']]
             if not same:  # should not happen: minimise only keeps failing candidates
-                small, result = case, mod.run(case)
+                small, result = case, guarded_run(mod, case)
                 same = [v for v in result.violations if v.key() == (violation['rule'], violation['signature'])]
             if not same:
                 stats['errors'].append({'error': f'violation did not reproduce in-process: {violation}', 'index': None})
@@ -404,7 +418,7 @@ def run_batch(prop, tier, base, workers=None, n_cases=None, wall_s=None):
                   f'  {final["detail"]}', flush=True)
             reported.append(path)
             exit_code = 1
-        except Exception as exc:  # noqa: BLE001
+        except (Exception, HarnessTimeout) as exc:  # noqa: BLE001
             stats['errors'].append({'error': f'while reporting: {type(exc).__name__}: {exc}',
                                     'trace': traceback.format_exc()[-1500:], 'index': None})
     if len(new_violations) > len(reported) and reported:
